@@ -66,15 +66,23 @@ static void euler(const IV & r, const IV & p, const IV & y, double turnsR, doubl
     static long long count = 0;
     const long long c = count++;
     const double a0 = (double)ang[0], a1 = (double)ang[1], a2 = (double)ang[2];
-    if (c % 4 == 0) {SmartRotation3D sr(a0, a1, a2); Rs = projMat<S>(sr.R(), 3, D, ok);}
+    // the matrix is read through R(), or - as the FIRST accessor used after (re-)initialisation - column by column through operator*
+    const bool mulFirst = (c / 28) % 2 == 1 || c % 5 == 0;
+    auto matrixOf = [&](const SmartRotation3D & h) {
+        if (!mulFirst) {return Eigen::Matrix3d(h.R());}
+        Eigen::Matrix3d m;
+        for (int j = 0; j < 3; ++j) {m.col(j) = h * Eigen::Vector3d(Eigen::Vector3d::Unit(j));}
+        return m;
+      };
+    if (c % 4 == 0) {SmartRotation3D sr(a0, a1, a2); Rs = projMat<S>(matrixOf(sr), 3, D, ok);}
     else {
       const int keep = (int)((c / 4) % 7);                      // bit i set: angle i keeps its value across the re-initialisation
       const double b0 = (keep & 1) ? a0 : a0 + 0.37, b1 = (keep & 2) ? a1 : (a1 > 0 ? a1 - 0.21 : a1 + 0.21), b2 = (keep & 4) ? a2 : a2 - 0.53;
       live.init(b0, b1, b2);
       volatile double sink = live.R()(0, 0) + live.dRdAngleAroundXAxis()(1, 1); (void)sink;
-      if (c % 4 == 1) {live.init(a0, a1, a2); Rs = projMat<S>(live.R(), 3, D, ok);}
-      else if (c % 4 == 2) {live.init(Eigen::Vector3d(a0, a1, a2)); Rs = projMat<S>(live.R(), 3, D, ok);}
-      else {SmartRotation3D cp(live); cp.init(a0, a1, a2); Rs = projMat<S>(cp.R(), 3, D, ok);}
+      if (c % 4 == 1) {live.init(a0, a1, a2); Rs = projMat<S>(matrixOf(live), 3, D, ok);}
+      else if (c % 4 == 2) {live.init(Eigen::Vector3d(a0, a1, a2)); Rs = projMat<S>(matrixOf(live), 3, D, ok);}
+      else {SmartRotation3D cp(live); cp.init(a0, a1, a2); Rs = projMat<S>(matrixOf(cp), 3, D, ok);}
     }
   }
   e.b("hasRs", hasRs).mat("Rs", Rs).b("ex", ok);
@@ -289,6 +297,37 @@ static void generic(vh::Rng & r, vh::Out & out)
     SphericalCoordinates<S> sp(SphericalTransform::range(c3), SphericalTransform::azimut(c3), SphericalTransform::elevation(c3));
     double x3 = SphericalTransform::x(sp), y3 = SphericalTransform::y(sp), z3 = SphericalTransform::z(sp);
     res.push_back(units(std::sqrt((x3 - c3.x()) * (x3 - c3.x()) + (y3 - c3.y()) * (y3 - c3.y()) + (z3 - c3.z()) * (z3 - c3.z())) / nrm));
+    // every entry point of the same maps: scalar overloads, homogeneous points (unit last coordinate), whole-point conversions
+    {
+      HomogeneousCoordinates2<S> h2(c.x(), c.y());
+      double rr = std::hypot((double)c.x(), (double)c.y()), aa = std::atan2((double)c.y(), (double)c.x());
+      res.push_back(units(std::fabs((double)PolarTransform::range(h2) - rr) / nrm));
+      res.push_back(units(std::fabs((double)PolarTransform::range(c.x(), c.y()) - rr) / nrm));
+      res.push_back(units(std::fabs((double)PolarTransform::range(c) - rr) / nrm));
+      res.push_back(units(angDiff((double)PolarTransform::azimut(h2), aa)));
+      res.push_back(units(angDiff((double)PolarTransform::azimut(c.x(), c.y()), aa)));
+      PolarCoordinates<S> ph = toHomogeneous(h2);                                   // (the library's name for homogeneous -> polar)
+      HomogeneousCoordinates2<S> hb = toHomogeneous(ph);
+      CartesianCoordinates2<S> cb = toCartesian(pol);
+      res.push_back(units(std::hypot((double)hb[0] - (double)c.x(), (double)hb[1] - (double)c.y()) / nrm));
+      res.push_back(units(std::fabs((double)hb[2] - 1)));
+      res.push_back(units(std::hypot((double)cb.x() - (double)c.x(), (double)cb.y() - (double)c.y()) / nrm));
+      res.push_back(units(std::hypot((double)PolarTransform::x(pol.getRange(), pol.getAzimut()) - (double)c.x(),
+        (double)PolarTransform::y(pol.getRange(), pol.getAzimut()) - (double)c.y()) / nrm));
+      HomogeneousCoordinates3<S> h3(c3.x(), c3.y(), c3.z());
+      double r3 = std::sqrt((double)c3.x() * c3.x() + (double)c3.y() * c3.y() + (double)c3.z() * c3.z());
+      res.push_back(units(std::fabs((double)SphericalTransform::range(h3) - r3) / nrm));
+      res.push_back(units(std::fabs((double)SphericalTransform::range(c3.x(), c3.y(), c3.z()) - r3) / nrm));
+      res.push_back(units(angDiff((double)SphericalTransform::azimut(h3), (double)SphericalTransform::azimut(c3))));
+      res.push_back(units(angDiff((double)SphericalTransform::azimut(c3.x(), c3.y()), (double)SphericalTransform::azimut(c3))));
+      res.push_back(units(std::fabs((double)SphericalTransform::elevation(h3) - (double)SphericalTransform::elevation(c3))));
+      res.push_back(units(std::fabs((double)SphericalTransform::elevation(c3.x(), c3.y(), c3.z()) - (double)SphericalTransform::elevation(c3))));
+      CartesianCoordinates3<S> cb3 = toCartesian(sp);
+      HomogeneousCoordinates3<S> hb3 = toHomogeneous(sp);
+      res.push_back(units(std::sqrt(std::pow((double)cb3.x() - c3.x(), 2) + std::pow((double)cb3.y() - c3.y(), 2) + std::pow((double)cb3.z() - c3.z(), 2)) / nrm));
+      res.push_back(units(std::sqrt(std::pow((double)hb3[0] - c3.x(), 2) + std::pow((double)hb3[1] - c3.y(), 2) + std::pow((double)hb3[2] - c3.z(), 2)) / nrm));
+      res.push_back(units(std::fabs((double)hb3[3] - 1)));
+    }
   }
   out.put(vh::Ev("generic").i("float", sizeof(S) == 4).vec("res", res).b("inRange", inRange));
 }
